@@ -96,3 +96,30 @@ def uni_xq_world(frozen_bar=1):
 
     roots = ((), ("uni.add[in,part,part]",), ("uni.add[in,part,part]", "uni.add[lo,part,part]"))
     return World("uni(xq)", build, roots, {"uni.data": data, "prices": prices})
+
+
+# ---------------------------------------------------------------------------------------------------------
+def aave_world(frozen_bar=1, n=4):
+    from . import aave
+
+    frames = aave.make_data(n)
+    prices = aave.price_frame(n)
+
+    def build():
+        m = aave.make_market(frames)
+        ctx = Ctx("aave", prices, USD, [aave.AaveAdapter(m, frames)],
+                  [(aave.WETH, 10), (aave.USDC, 20000), (aave.DAI, 5000), (aave.USDT, 8000), (aave.AAVE, 50), (aave.WBTC, 1)],
+                  prices.index)
+        ctx.begin_bar(frozen_bar)
+        return ctx
+
+    roots = (
+        (),
+        ("aave.supply[WETH,part,C]",),
+        ("aave.supply[WETH,part,C]", "aave.borrow[USDC,third]"),
+        ("aave.supply[WETH,part,C]", "aave.supply[USDC,part,C]", "aave.borrow[DAI,third]"),
+        ("aave.supply[USDT,part,N]", "aave.supply[WETH,part,C]", "aave.borrow[USDC,near]"),
+    )
+    fr = {f"aave.{k}": v for k, v in frames.items()}
+    fr["prices"] = prices
+    return World("aave", build, roots, fr)
